@@ -1,5 +1,6 @@
 import OdfModel.Spec.XmlParse
-open OdfModel OdfModel.Xml OdfModel.Spec
+import OdfModel.Ns
+open OdfModel OdfModel.Xml OdfModel.Spec OdfModel.Ns
 
 /-! line protocol of the XML layer (see harness/xmlcorr.py)
   text <s> | cdata <s> | attr <s>            -> ok <s>          the three encoders
@@ -101,6 +102,20 @@ def handle (line : String) : String :=
     match (do let t ← table; let n ← tree; pure (t, n) : P _).run rest with
     | some ((t, n), []) => "ok " ++ Wire.enc (render t n)
     | _ => "err bad-arg"
+  | "nsrun" :: rest =>
+    -- a history of get_nsprefix calls from the initial table: the prefixes returned and the final Element.namespaces
+    match rest.mapM Wire.dec with
+    | some nss =>
+      let step := fun (acc : NsState × List Str) ns => let r := getNsPrefix acc.1 ns; (r.1, acc.2 ++ [r.2])
+      let (st, ps) := nss.foldl step (initial, [])
+      "ok " ++ String.intercalate " " (ps.map Wire.enc) ++ " | " ++
+        String.intercalate " " (st.seen.map (fun e => Wire.enc e.1 ++ " " ++ Wire.enc e.2))
+    | none => "err bad-arg"
+  | ["saveprefix", w] =>
+    -- __save_prefix on the initial table: which namespace gets registered for this value
+    match Wire.dec w with
+    | some v => "ok " ++ String.intercalate " " ((savePrefix initial v).seen.map (fun e => Wire.enc e.1 ++ " " ++ Wire.enc e.2))
+    | none => "err bad-arg"
   | ["parse", w] => match Wire.dec w with
     | some s => match parseDoc s with
       | some n => "ok " ++ showNode n
